@@ -364,7 +364,10 @@ pub fn run_e4(spec: &ShardSpec, cur: Option<&str>) -> Outcome {
 }
 
 pub fn replay_e4(spec: &ShardSpec, hist: &[Op]) -> VResult<()> {
-    let pos = hist.iter().position(|o| o.k == OpK::Clear && o.key == SEP_KEY).ok_or_else(|| Viol::new("machinery", "no fault marker in history"))?;
+    let pos = match hist.iter().position(|o| o.k == OpK::Clear && o.key == SEP_KEY) {
+        Some(p) => p,
+        None => return crate::pairs::replay_plain::<W>(spec, hist),
+    };
     let code = hist[pos].arg;
     let kind = CB_ALL[(code & 0xFF) as usize];
     let i = (code >> 8) & 0xFFFF_FFFF;
